@@ -76,7 +76,9 @@ def run(tier, seed, ev):
         cons = ("the in-memory index stays exact and keys other than the operation's own are untouched",
                 T.make_p_state_consistent(ex), "state_consistent", "probe:replay_fault_containment")
         big = tier == "thorough"
-        plan = [("put.finish", [clean, nodangle, cons]), ("remove", [clean, nodangle, cons]), ("checkpoint", [clean, cons]),
+        snap = ("with one failed call anywhere, no WAL segment is pruned unless the new snapshot was written, synced and renamed first",
+                T.p_snapshot_before_prune, "snapshot_before_prune", "strace")
+        plan = [("put.finish", [clean, nodangle, cons, snap]), ("remove", [clean, nodangle, cons, snap]), ("checkpoint", [clean, cons, snap]),
                 ("delete_orphans", [clean, nodangle])]
         if big:
             plan.append(("remove_range", [clean, nodangle]))
